@@ -2,6 +2,7 @@ package main
 
 import (
 	"fmt"
+	"go/constant"
 	"go/ast"
 	"go/token"
 	"go/types"
@@ -36,6 +37,7 @@ func checkC17(c *Ctx, r *Report) {
 	algorithmCoverage(c, r, "C17.R5.alg-coverage", []string{"DNSKEY.ReadPrivateKey", "AlgorithmToHash"})
 	r.rule("C17.R6.keyfile-last-line", 1, "the key-file lexer refuses to flush its pending token only for a real read error, not for io.EOF")
 	lexerTailGuard(c, r, "C17.R6.keyfile-last-line", "klexer.Next", "the last line of a private-key file without a final newline (the PrivateKey line of the library's own ECDSA / Ed25519 export) is dropped and ReadPrivateKey returns a zero key without an error")
+	c17Unhashable(c, r, "C17.R1.unhashable")
 }
 
 // c17R6: the RSA public-key decoder accepts every modulus size the generator can produce.
@@ -158,6 +160,22 @@ func (e *ordEval) evalBool(v ssa.Value, path []*ssa.BasicBlock) (val bool, known
 			return !b, k, u
 		}
 	case *ssa.BinOp:
+		// a hash compared with "": the three values ranked here are hashes, i.e. non-empty (the unhashable-name exit
+		// is a guard, decided by C17.R1.unhashable)
+		if isEmptyStringConst(t.Y) || isEmptyStringConst(t.X) {
+			other := t.X
+			if isEmptyStringConst(t.X) {
+				other = t.Y
+			}
+			if _, isRole := e.role[other]; isRole {
+				switch t.Op {
+				case token.EQL:
+					return false, true, false
+				case token.NEQ:
+					return true, true, false
+				}
+			}
+		}
 		ri, iok := e.role[t.X]
 		rj, jok := e.role[t.Y]
 		if iok && jok {
@@ -266,7 +284,7 @@ func preorders3() [][]int {
 func c17R1(c *Ctx, r *Report) {
 	r.rule("C17.R1.cover-order", 13, "NSEC3.Cover returns true exactly for the orderings in which the name hash lies strictly inside the circular interval (owner, next)")
 	r.rule("C17.R1.match-order", 13, "NSEC3.Match returns true exactly when the name hash equals the owner hash")
-	r.rule("C17.R1.zone-guard", 2, "every true result is preceded by IsSubDomain(owner zone, upper(name)) and the two-label test")
+	r.rule("C17.R1.zone-guard", 2, "every true result is preceded by IsSubDomain(owner zone, name), on names that were not mapped rune-wise, and by the two-label test")
 	for _, spec := range []struct {
 		fn, rule string
 		want     func(n, o, x int) bool
@@ -316,6 +334,14 @@ func c17R1(c *Ctx, r *Report) {
 				}
 			}
 		}
+		// likewise the owner hash: a case-normalised copy of the first label
+		if ownerHash != nil {
+			for _, ref := range *ownerHash.Referrers() {
+				if call, ok := ref.(*ssa.Call); ok && (calleeNameSSA(&call.Call) == "strings.ToUpper" || calleeNameSSA(&call.Call) == "strings.ToLower") && call.Call.Args[0] == ownerHash {
+					ownerHash = call
+				}
+			}
+		}
 		if nameHash == nil || ownerHash == nil || (nextHash == nil && spec.fn == "NSEC3.Cover") {
 			r.undecided(spec.rule, spec.fn, c.pos(fn.Pos()), "cannot identify the hash operands (name=%v owner=%v next=%v)", nameHash != nil, ownerHash != nil, nextHash != nil)
 			continue
@@ -339,6 +365,9 @@ func c17R1(c *Ctx, r *Report) {
 				if bt, ok := b.X.Type().Underlying().(*types.Basic); ok && bt.Info()&types.IsString != 0 {
 					_, a := role[b.X]
 					_, bb := role[b.Y]
+					if (a && isEmptyStringConst(b.Y)) || (bb && isEmptyStringConst(b.X)) {
+						return
+					}
 					if !a || !bb {
 						foreign = true
 					}
@@ -384,9 +413,15 @@ func c17R1(c *Ctx, r *Report) {
 		// zone guard
 		var problems []string
 		gs := []Guard{
-			{Name: "IsSubDomain(ownerZone, upper(name))", Op: "call", A: func(v ssa.Value) bool {
+			{Name: "IsSubDomain(ownerZone, name) on the names as octets (no rune-wise case mapping)", Op: "call", A: func(v ssa.Value) bool {
 				call, ok := v.(*ssa.Call)
 				if !ok || calleeNameSSA(&call.Call) != "IsSubDomain" || len(call.Call.Args) != 2 {
+					return false
+				}
+				runeWise := callsFunc("strings.ToUpper", "strings.ToLower", "strings.Map", "strings.Title", "strings.ToTitle")
+				if anyIn(sliceOf(call.Call.Args[0]), runeWise) || anyIn(sliceOf(call.Call.Args[1]), runeWise) {
+					// names are strings of octets: a rune-wise mapping turns invalid UTF-8 into U+FFFD and folds
+					// non-ASCII letters, so another zone's names pass the membership test
 					return false
 				}
 				return call.Call.Args[0] == ownerZone && anyIn(sliceOf(call.Call.Args[1]), func(x ssa.Value) bool { return x == fn.Params[1] })
@@ -937,4 +972,57 @@ func keysOf(m map[string]bool) []string {
 	}
 	sort.Strings(out)
 	return out
+}
+
+func isEmptyStringConst(v ssa.Value) bool {
+	k, ok := v.(*ssa.Const)
+	return ok && k.Value != nil && k.Value.Kind() == constant.String && constant.StringVal(k.Value) == ""
+}
+
+// c17Unhashable: HashName returns "" for an unknown hash algorithm, a malformed salt or a name that cannot be packed.
+// "" sorts before every hash, so Cover and Match have to leave before they compare it: every ordering or equality
+// comparison of the name hash with another hash is behind `nameHash != ""`.
+func c17Unhashable(c *Ctx, r *Report, rule string) {
+	r.rule(rule, 2, "NSEC3.Cover / Match compare the name hash with the owner and next hash only after it was tested non-empty")
+	for _, name := range []string{"NSEC3.Cover", "NSEC3.Match"} {
+		fn := c.ssaFunc(name)
+		if fn == nil {
+			r.cerr(rule, name, "function not found")
+			continue
+		}
+		r.fn(name)
+		var h *ssa.Call
+		for _, ci := range callsIn(fn, "HashName") {
+			if call, ok := ci.(*ssa.Call); ok {
+				h = call
+			}
+		}
+		if h == nil {
+			r.undecided(rule, name, c.pos(fn.Pos()), "no call of HashName found")
+			continue
+		}
+		var bad []string
+		for _, ref := range *h.Referrers() {
+			bin, ok := ref.(*ssa.BinOp)
+			if !ok || isEmptyStringConst(bin.X) || isEmptyStringConst(bin.Y) {
+				continue
+			}
+			guarded := false
+			for _, f := range factsAt(fn, bin.Block()) {
+				b2, ok := f.Atom.(*ssa.BinOp)
+				if !ok {
+					continue
+				}
+				isTest := (b2.X == ssa.Value(h) && isEmptyStringConst(b2.Y)) || (b2.Y == ssa.Value(h) && isEmptyStringConst(b2.X))
+				if isTest && ((b2.Op == token.NEQ && f.Holds) || (b2.Op == token.EQL && !f.Holds)) {
+					guarded = true
+				}
+			}
+			if !guarded {
+				bad = append(bad, c.pos(bin.Pos()))
+			}
+		}
+		sort.Strings(bad)
+		r.check(len(bad) == 0, rule, name, c.pos(h.Pos()), "behind nameHash != \"\"", "the name hash is compared at %s without having been tested non-empty: for a record with an unknown hash algorithm (which RFC 5155 s.8.1 says must be ignored), a malformed salt or an unpackable name HashName returns \"\", which sorts before every hash, so a wrapping or empty interval 'covers' every name of the zone", strings.Join(bad, ", "))
+	}
 }
